@@ -2,7 +2,11 @@ module verif/harness
 
 go 1.25.0
 
-require github.com/hashicorp/serf v0.0.0
+require (
+	github.com/hashicorp/go-msgpack/v2 v2.1.5
+	github.com/hashicorp/memberlist v0.5.4
+	github.com/hashicorp/serf v0.0.0
+)
 
 require (
 	github.com/armon/go-metrics v0.4.1 // indirect
@@ -10,11 +14,9 @@ require (
 	github.com/hashicorp/errwrap v1.1.0 // indirect
 	github.com/hashicorp/go-immutable-radix v1.3.1 // indirect
 	github.com/hashicorp/go-metrics v0.6.0 // indirect
-	github.com/hashicorp/go-msgpack/v2 v2.1.5 // indirect
 	github.com/hashicorp/go-multierror v1.1.1 // indirect
 	github.com/hashicorp/go-sockaddr v1.0.7 // indirect
 	github.com/hashicorp/golang-lru v1.0.2 // indirect
-	github.com/hashicorp/memberlist v0.5.4 // indirect
 	github.com/miekg/dns v1.1.72 // indirect
 	github.com/sean-/seed v0.0.0-20170313163322-e2103e2c3529 // indirect
 	golang.org/x/net v0.56.0 // indirect
